@@ -1,0 +1,4 @@
+//! BMP unit level hooks (accept loop + router handler on in-memory
+//! connections): see `units::bmp_tcp_in::unit::verif_hooks_conn`.
+pub use crate::units::bmp_tcp_in::unit::verif_hooks_conn::*;
+pub use crate::units::bmp_tcp_in::unit::TracingMode;
